@@ -19,6 +19,8 @@ type Op struct {
 	Variables     map[string]any `json:"variables,omitempty"`
 	OperationName string         `json:"operationName,omitempty"`
 	Features      []string       `json:"features,omitempty"`
+	// Alt holds alternative assignments for the same variable definitions (Options.AltVars).
+	Alt []map[string]any `json:"alt,omitempty"`
 }
 
 // VarsJSON renders the variables object ("" when there are none).
@@ -48,6 +50,7 @@ type Options struct {
 	// recorded finding: "default-omitted-nested", "single@default-nested",
 	// "null-default-list", "int-min", "union-spread-on-non-union".
 	Allow         map[string]bool
+	AltVars       int  // number of alternative variable assignments to draw (Op.Alt)
 	OwnFieldAlias bool // allow aliases drawn from the enclosing type's own field names (known finding C01-alias-collides-with-planner-field)
 }
 
@@ -70,6 +73,7 @@ type varDef struct {
 	def     string // default literal or ""
 	value   any
 	present bool
+	alts    []any // alternative values (present in every alternative assignment)
 }
 
 // Gen draws an operation over schema s.
@@ -134,6 +138,17 @@ func Gen(t *rapid.T, s *ast.Schema, o Options) Op {
 			}
 		}
 		g.feat["variables"] = true
+		for i := 0; i < o.AltVars; i++ {
+			alt := map[string]any{}
+			for _, v := range g.vars {
+				if i < len(v.alts) {
+					alt[v.name] = v.alts[i]
+				} else if v.present {
+					alt[v.name] = v.value
+				}
+			}
+			op.Alt = append(op.Alt, alt)
+		}
 	}
 	for f := range g.feat {
 		op.Features = append(op.Features, f)
@@ -246,6 +261,9 @@ func (g *gen) directive(label string) string {
 			v.def = strconv.FormatBool(b)
 			v.present = rapid.Bool().Draw(g.t, label+"dirpresent")
 			g.feat["directive-var-default"] = true
+		}
+		for i := 0; i < g.o.AltVars; i++ {
+			v.alts = append(v.alts, rapid.Bool().Draw(g.t, label+"diralt"+strconv.Itoa(i)))
 		}
 		g.vars = append(g.vars, v)
 		g.feat["directive-variable"] = true
@@ -491,6 +509,10 @@ func (g *gen) variable(t *ast.Type, nested bool, label string) string {
 	case !vt.NonNull && rapid.IntRange(0, 5).Draw(g.t, label+"vabs") == 0:
 		v.present = false
 		g.feat["variable-omitted"] = true
+	}
+	for i := 0; i < g.o.AltVars; i++ {
+		_, av := g.value(&vt, 0, label+"alt"+strconv.Itoa(i), false, "var")
+		v.alts = append(v.alts, av)
 	}
 	g.vars = append(g.vars, v)
 	return v.name
